@@ -67,6 +67,11 @@ def sweeps(tier):
                    ('rsp:12', {'status_word': 0, 'event_count': 1, 'message_count': 2, 'events': [i & 0x7F for i in range(64 - d)]})]
             for kind, f in big:
                 cases.append({'t': 'msg', 'framing': framing, 'kind': kind, 'fields': f, 'uid': 0x11, 'tid': 0x0102, 'pid': 0})
+        for n in (1, 100, 127, 128, 129, 200, 243, 244):
+            cases.append({'t': 'msg', 'framing': framing, 'kind': 'rsp:43', 'uid': 0x11, 'tid': 0x0102, 'pid': 0,
+                          'fields': {'read_code': 1, 'conformity': 1, 'more': 0, 'next_id': 0, 'objects': [[0, '41' * n]]}})
+            cases.append({'t': 'msg', 'framing': framing, 'kind': 'rsp:43', 'uid': 0x11, 'tid': 0x0102, 'pid': 0,
+                          'fields': {'read_code': 3, 'conformity': 0x83, 'more': 0xFF, 'next_id': 0x81, 'objects': [[0, '42' * 5], [0x80, '43' * min(n, 230)]]}})
     out.append(('largest-legal-messages-x-framings', cases, True))
     # checkCRC / checkLRC accept exactly the matching value: all candidates for a few strings
     strings = [b'', b'\x00', b'\x01\x03\x00\x00\x00\x0a', bytes(range(40)), b'\xff' * 17]
